@@ -49,6 +49,8 @@ SUPPORTED = {
     "drop": _tmpl("DROP TABLE old{i};"),
     "hql": _tmpl("CREATE EXTERNAL TABLE h{i} (a int, b string) PARTITIONED BY (c int) STORED AS PARQUET LOCATION 's3://x/y';"),
     "hql_ml": _tmpl("CREATE TABLE hm{i} (\n  a int,\n  b string\n)\nROW FORMAT DELIMITED\nFIELDS TERMINATED BY '|'\nSTORED AS TEXTFILE\nTBLPROPERTIES ('k1'='v1');"),
+    # a hive serde with an "input.regex" property: the pre-processor keeps the regex on the lexer for the whole script
+    "hql_serde": _tmpl("CREATE EXTERNAL TABLE hs{i} (a string, b string)\nROW FORMAT SERDE 'org.apache.hadoop.hive.serde2.RegexSerDe'\nWITH SERDEPROPERTIES (\n  \"input.regex\" = \"([0-9]+);(.*)\"\n)\nSTORED AS TEXTFILE;"),
     "mysql": _tmpl("CREATE TABLE m{i} (a int AUTO_INCREMENT, b int) ENGINE=InnoDB DEFAULT CHARSET=utf8;"),
     "oracle": _tmpl("CREATE TABLE o{i} (a NUMBER(*,0), b VARCHAR2(30 CHAR)) TABLESPACE users STORAGE (INITIAL 64K);"),
     "snowflake": _tmpl("CREATE OR REPLACE TRANSIENT TABLE sf{i} (a int) CLUSTER BY (a) COMMENT = 'c';"),
